@@ -465,8 +465,21 @@ class Gen:
             # pure local bindings (often shadowing an outer name, possibly using it on the right-hand side)
             for _ in range(r.choice([1, 1, 2])):
                 lt = r.choice([INT, INT, STR, BOOL])
-                e = self.expr(lt, depth - 1, False)
-                v = self.declare(self.pick_name(), lt, False)
+                outer = [w for w in self.vars_of(lt) if not w.name.startswith("i_") and not (self.o.toplevel_pure and w.toplevel)]
+                if outer and r.random() < 0.35:
+                    # `let x = x + 1`: the new binding shadows the variable its own right-hand side reads
+                    w = r.choice(outer)
+                    wv = E("var", lt, name=w.name, bid=w.bid)
+                    if lt == INT:
+                        e = E("bin", INT, op=r.choice(["+", "-", "*"]), l=wv, r=E("int", INT, v=r.choice([1, 2, 3])))
+                    elif lt == STR:
+                        e = E("bin", STR, op="^", l=wv, r=E("str", STR, v="s"))
+                    else:
+                        e = E("call", BOOL, fn="not", args=[wv], builtin=True)
+                    v = self.declare(w.name, lt, False)
+                else:
+                    e = self.expr(lt, depth - 1, False)
+                    v = self.declare(self.pick_name(), lt, False)
                 body.append({"k": "let", "name": v.name, "bid": v.bid, "ann": None, "e": e})
                 if r.random() < 0.3:
                     # a pure expression statement whose value is discarded
